@@ -27,6 +27,8 @@ SPEC = {
         # witnesses of the two defects (model shares them)
         'rt17_third', 'rt6_third_counterexample', 'ppol_prec6_counterexample', 'count_via_double_counterexample',
         'count_integer_example',
+        # bare Vector codec; decisions are a function of the table, and the precision witness flips one
+        'roundtrip_vec', 'rdVec_ok', 'ext_rdVec', 'decisions_of_roundtrip', 'ppol_prec6_decision_counterexample',
     ]],
     # obligations over the regenerated module AITB.Gen.IOPrec (re-proved against the source on every run)
     'gen_obligations': [_T + 'IOPrec_utils_ge_17', _T + 'IOPrec_pomdpPolicy', _T + 'IOPrec_commit_last'],
